@@ -116,7 +116,7 @@ theorem compileF_u (tys : List ITy) (off toff : Nat → Int) (R : ITy) (s : FStm
       have hu : u1b = u1 := hu
       have := ihb _ _ _ _ _ _ _ _ hb
       simp only [nuniq]; omega
-  | case_ v s ih =>
+  | case_ lo hi s ih =>
     intro ctx k0 c0 u0 code k1 c1 u1 h
     simp only [compileF] at h
     split at h
@@ -144,7 +144,7 @@ theorem collect_nofree (s : FStmt) : ∀ u, noFreeCase s = true → collect u s 
   | ifte e t f iht ihf => intro u h; simp only [noFreeCase, Bool.and_eq_true] at h; simp [collect, iht _ h.1, ihf _ h.2]
   | for_ init e inc b ih => intro u h; simp only [noFreeCase] at h; simp [collect, ih _ h]
   | doWhile b e ih => intro u h; simp only [noFreeCase] at h; simp [collect, ih _ h]
-  | case_ v s _ => intro u h; simp [noFreeCase] at h
+  | case_ lo hi s _ => intro u h; simp [noFreeCase] at h
   | default_ s _ => intro u h; simp [noFreeCase] at h
   | skip => intro u _; rfl
   | expr e => intro u _; rfl
@@ -190,94 +190,203 @@ theorem case_zf64 (t : ITy) (ht : t.size = 8) (r : BitVec 64) (v cv : Int) (h : 
     simp at *
     omega
 
-/-- the comparison of one rung: the flags are defined, ZF iff the `case` constant selects `v`; memory, `%rsp`, `%rbp`, `%rax`
-    unchanged -/
-theorem caseCmp_run (t : ITy) (cv v : Int) (s : State) (h : Represents t (s.get .rax) v) :
-    ∃ is s', (∀ l, caseTest t cv l = (is.map FI.ins) ++ [FI.jcc .e (.s (.uniq l))]) ∧ X86.run is s = some s' ∧
-      s'.flagsValid = true ∧ s'.zf = decide (v = convert (promote t) cv) ∧ Same s s' ∧ s'.get .rax = s.get .rax := by
-  by_cases h8 : t.size = 8
-  · by_cases hf : fits32 cv = true
-    · refine ⟨[⟨"cmp", [.i cv, .r "%rax"]⟩], _, fun l => by simp [caseTest, h8, hf], rfl, rfl, ?_, ⟨rfl, rfl, rfl⟩, rfl⟩
-      rw [← case_zf64 t h8 (s.get .rax) v cv h]
-      simp [State.flags, State.src, State.getW]
-    · refine ⟨[⟨"mov", [.i cv, .r "%rdi"]⟩, ⟨"cmp", [.r "%rdi", .r "%rax"]⟩], _, fun l => by simp [caseTest, h8, hf], rfl, rfl, ?_,
-        ⟨rfl, ?_, ?_⟩, ?_⟩
-      · rw [← case_zf64 t h8 (s.get .rax) v cv h]
-        simp [State.flags, State.src, State.getW, State.setW, State.get, State.set]
+theorem ofInt_toI32 (x : Int) : BitVec.ofInt 32 (toI32 x) = BitVec.ofInt 32 x := by
+  apply BitVec.eq_of_toNat_eq
+  simp only [BitVec.toNat_ofInt, toI32, Int.bmod_def]
+  congr 1
+  split <;> omega
+
+theorem ofInt_toI64 (x : Int) : BitVec.ofInt 64 (toI64 x) = BitVec.ofInt 64 x := by
+  apply BitVec.eq_of_toNat_eq
+  simp only [BitVec.toNat_ofInt, toI64, Int.bmod_def]
+  congr 1
+  split <;> omega
+
+/-- `jbe` after `cmp y, x`: CF or ZF iff `x ≤ y` unsigned -/
+theorem be_iff {n : Nat} (x y : BitVec n) : (BitVec.usubOverflow x y || (x - y == 0#n)) = decide (x.toNat ≤ y.toNat) := by
+  rw [sub_eq_zero_iff]
+  simp only [BitVec.usubOverflow]
+  by_cases h : x = y
+  · subst h; simp
+  · have : x.toNat ≠ y.toNat := fun e => h (BitVec.eq_of_toNat_eq e)
+    simp only [h, decide_false, Bool.or_false]
+    congr 1
+    apply propext
+    omega
+
+/-- 32-bit range rung: the unsigned distance test `(v - lo) mod 2^32 ≤ (hi - lo) mod 2^32` decides `lo ≤ v ≤ hi` in the promoted
+    controlling type, for a range that is not empty there -/
+theorem range32 (t : ITy) (ht : t.size ≠ 8) (r : BitVec 64) (v lo hi : Int) (h : Represents t r v)
+    (hle : convert (promote t) lo ≤ convert (promote t) hi) :
+    decide ((r.setWidth 32 - BitVec.ofInt 32 (toI32 lo)).toNat ≤ (BitVec.ofInt 32 (toI32 (hi - lo))).toNat) =
+      decide (convert (promote t) lo ≤ v ∧ v ≤ convert (promote t) hi) := by
+  rw [ofInt_toI32, ofInt_toI32]
+  congr 1
+  apply propext
+  unfold Represents at h
+  obtain ⟨hr, hv⟩ := h
+  cases t <;> simp only [ITy.size] at ht <;> try (exact absurd rfl ht)
+  all_goals
+    simp only [ITy.inRange, ITy.min, ITy.max, ITy.signed, ITy.bits] at hr
+    simp only at hv
+    simp only [promote, convert, wrap, ITy.rank, ITy.min, ITy.max, ITy.signed, ITy.bits, BitVec.toNat_setWidth,
+      BitVec.toNat_ofInt, BitVec.toNat_sub, Int.bmod_def] at hle ⊢
+    simp at *
+    omega
+
+/-- 64-bit range rung -/
+theorem range64 (t : ITy) (ht : t.size = 8) (r : BitVec 64) (v lo hi : Int) (h : Represents t r v)
+    (hle : convert (promote t) lo ≤ convert (promote t) hi) :
+    decide ((r - BitVec.ofInt 64 lo).toNat ≤ (BitVec.ofInt 64 (toI64 (hi - lo))).toNat) =
+      decide (convert (promote t) lo ≤ v ∧ v ≤ convert (promote t) hi) := by
+  rw [ofInt_toI64]
+  congr 1
+  apply propext
+  unfold Represents at h
+  obtain ⟨hr, hv⟩ := h
+  cases t <;> simp only [ITy.size] at ht <;> try (exact absurd ht (by decide))
+  all_goals
+    simp only [ITy.inRange, ITy.min, ITy.max, ITy.signed, ITy.bits] at hr
+    simp only at hv
+    simp only [promote, convert, wrap, ITy.rank, ITy.min, ITy.max, ITy.signed, ITy.bits, BitVec.toNat_ofInt, BitVec.toNat_sub,
+      Int.bmod_def] at hle ⊢
+    simp at *
+    omega
+
+theorem caseSel_eq (P : ITy) (c v : Int) : caseSel P c c v = decide (v = convert P c) := by
+  unfold caseSel
+  congr 1
+  apply propext
+  omega
+
+/-- the comparison of one rung: the flags are defined, the condition of its jump holds iff the `case` selects `v`; memory,
+    `%rsp`, `%rbp`, `%rax` unchanged -/
+theorem caseCmp_run (t : ITy) (lo hi v : Int) (s : State) (h : Represents t (s.get .rax) v)
+    (hle : convert (promote t) lo ≤ convert (promote t) hi) :
+    ∃ (is : List Ins) (cc : CC) (s' : State), (∀ l, caseTest t lo hi l = (is.map FI.ins) ++ [FI.jcc cc (.s (.uniq l))]) ∧
+      X86.run is s = some s' ∧ s'.flagsValid = true ∧ s'.cond cc = caseSel (promote t) lo hi v ∧ Same s s' ∧
+      s'.get .rax = s.get .rax := by
+  by_cases hlh : lo = hi
+  · subst hlh
+    rw [caseSel_eq]
+    by_cases h8 : t.size = 8
+    · by_cases hf : fits32 lo = true
+      · refine ⟨[⟨"cmp", [.i lo, .r "%rax"]⟩], .e, _, fun l => by simp [caseTest, h8, hf], rfl, rfl, ?_, ⟨rfl, rfl, rfl⟩, rfl⟩
+        rw [← case_zf64 t h8 (s.get .rax) v lo h]
+        simp [State.cond, State.flags, State.src, State.getW]
+      · refine ⟨[⟨"mov", [.i lo, .r "%rdi"]⟩, ⟨"cmp", [.r "%rdi", .r "%rax"]⟩], .e, _, fun l => by simp [caseTest, h8, hf], rfl, rfl,
+          ?_, ⟨rfl, ?_, ?_⟩, ?_⟩
+        · rw [← case_zf64 t h8 (s.get .rax) v lo h]
+          simp [State.cond, State.flags, State.src, State.getW, State.setW, State.get, State.set]
+        all_goals simp [State.flags, State.src, State.getW, State.setW, State.get, State.set]
+    · refine ⟨[⟨"cmp", [.i (toI32 lo), .r "%eax"]⟩], .e, _, fun l => by simp [caseTest, h8], rfl, rfl, ?_, ⟨rfl, rfl, rfl⟩, rfl⟩
+      rw [← case_zf32 t h8 (s.get .rax) v lo h]
+      simp [State.cond, State.flags, State.src, State.getW]
+  · unfold caseSel
+    by_cases h8 : t.size = 8
+    · rw [← range64 t h8 (s.get .rax) v lo hi h hle]
+      have key := be_iff ((s.get .rax) - BitVec.ofInt 64 lo) (BitVec.ofInt 64 (toI64 (hi - lo)))
+      by_cases hf : fits32 lo = true
+      · by_cases hg : fits32 (toI64 (hi - lo)) = true
+        · refine ⟨[⟨"mov", [.r "%rax", .r "%rdi"]⟩, ⟨"sub", [.i lo, .r "%rdi"]⟩, ⟨"cmp", [.i (toI64 (hi - lo)), .r "%rdi"]⟩], .be, _,
+            fun l => by simp [caseTest, hlh, h8, hf, hg], rfl, rfl, ?_, ⟨rfl, ?_, ?_⟩, ?_⟩
+          · simpa [State.cond, State.flags, State.src, State.getW, State.setW, State.get, State.set, BitVec.usubOverflow] using key
+          all_goals simp [State.flags, State.src, State.getW, State.setW, State.get, State.set]
+        · refine ⟨[⟨"mov", [.r "%rax", .r "%rdi"]⟩, ⟨"sub", [.i lo, .r "%rdi"]⟩, ⟨"mov", [.i (toI64 (hi - lo)), .r "%rdx"]⟩,
+              ⟨"cmp", [.r "%rdx", .r "%rdi"]⟩], .be, _,
+            fun l => by simp [caseTest, hlh, h8, hf, hg], rfl, rfl, ?_, ⟨rfl, ?_, ?_⟩, ?_⟩
+          · simpa [State.cond, State.flags, State.src, State.getW, State.setW, State.get, State.set, BitVec.usubOverflow] using key
+          all_goals simp [State.flags, State.src, State.getW, State.setW, State.get, State.set]
+      · by_cases hg : fits32 (toI64 (hi - lo)) = true
+        · refine ⟨[⟨"mov", [.r "%rax", .r "%rdi"]⟩, ⟨"mov", [.i lo, .r "%rdx"]⟩, ⟨"sub", [.r "%rdx", .r "%rdi"]⟩,
+              ⟨"cmp", [.i (toI64 (hi - lo)), .r "%rdi"]⟩], .be, _,
+            fun l => by simp [caseTest, hlh, h8, hf, hg], rfl, rfl, ?_, ⟨rfl, ?_, ?_⟩, ?_⟩
+          · simpa [State.cond, State.flags, State.src, State.getW, State.setW, State.get, State.set, BitVec.usubOverflow] using key
+          all_goals simp [State.flags, State.src, State.getW, State.setW, State.get, State.set]
+        · refine ⟨[⟨"mov", [.r "%rax", .r "%rdi"]⟩, ⟨"mov", [.i lo, .r "%rdx"]⟩, ⟨"sub", [.r "%rdx", .r "%rdi"]⟩,
+              ⟨"mov", [.i (toI64 (hi - lo)), .r "%rdx"]⟩, ⟨"cmp", [.r "%rdx", .r "%rdi"]⟩], .be, _,
+            fun l => by simp [caseTest, hlh, h8, hf, hg], rfl, rfl, ?_, ⟨rfl, ?_, ?_⟩, ?_⟩
+          · simpa [State.cond, State.flags, State.src, State.getW, State.setW, State.get, State.set, BitVec.usubOverflow] using key
+          all_goals simp [State.flags, State.src, State.getW, State.setW, State.get, State.set]
+    · rw [← range32 t h8 (s.get .rax) v lo hi h hle]
+      have key := be_iff ((s.get .rax).setWidth 32 - BitVec.ofInt 32 (toI32 lo)) (BitVec.ofInt 32 (toI32 (hi - lo)))
+      refine ⟨[⟨"mov", [.r "%eax", .r "%edi"]⟩, ⟨"sub", [.i (toI32 lo), .r "%edi"]⟩, ⟨"cmp", [.i (toI32 (hi - lo)), .r "%edi"]⟩], .be, _,
+        fun l => by simp [caseTest, hlh, h8], rfl, rfl, ?_, ⟨rfl, ?_, ?_⟩, ?_⟩
+      · simpa [State.cond, State.flags, State.src, State.getW, State.setW, State.get, State.set, BitVec.usubOverflow] using key
       all_goals simp [State.flags, State.src, State.getW, State.setW, State.get, State.set]
-  · refine ⟨[⟨"cmp", [.i (toI32 cv), .r "%eax"]⟩], _, fun l => by simp [caseTest, h8], rfl, rfl, ?_, ⟨rfl, rfl, rfl⟩, rfl⟩
-    rw [← case_zf32 t h8 (s.get .rax) v cv h]
-    simp [State.flags, State.src, State.getW]
 
 theorem enc_ins (C : Nat) (is : List Ins) : (is.map FI.ins).map (enc C) = J is := by
   induction is with
   | nil => rfl
   | cons i r ih => simp only [List.map_cons, J] at ih ⊢; rw [ih]; rfl
 
-/-- **one rung**: to the line `.L..l:` if the constant selects `v`, else to the next rung -/
-theorem caseTest_run (g : Cfg) (ok : g.OK) (t : ITy) (cv v : Int) (l pos tpos : Nat) (m : State)
-    (hat : At g.q pos ((caseTest t cv l).map (enc g.C)))
-    (ht : convert (promote t) cv = v → g.q[tpos]? = some (.lbl (encL g.C (.s (.uniq l)))))
+/-- **one rung**: to the line `.L..l:` if the `case` selects `v`, else to the next rung -/
+theorem caseTest_run (g : Cfg) (ok : g.OK) (t : ITy) (lo hi v : Int) (l pos tpos : Nat) (m : State)
+    (hat : At g.q pos ((caseTest t lo hi l).map (enc g.C)))
+    (ht : caseSel (promote t) lo hi v = true → g.q[tpos]? = some (.lbl (encL g.C (.s (.uniq l)))))
+    (hle : convert (promote t) lo ≤ convert (promote t) hi)
     (hr : Represents t (m.get .rax) v) :
     ∃ m', Same m m' ∧ Represents t (m'.get .rax) v ∧
-      Reach g.q (pos, m) (if convert (promote t) cv = v then tpos else pos + (caseTest t cv l).length, m') := by
-  obtain ⟨is, s', hshape, hrun, hfv, hz, hsame, hrax⟩ := caseCmp_run t cv v m hr
+      Reach g.q (pos, m) (if caseSel (promote t) lo hi v = true then tpos else pos + (caseTest t lo hi l).length, m') := by
+  obtain ⟨is, cc, s', hshape, hrun, hfv, hz, hsame, hrax⟩ := caseCmp_run t lo hi v m hr hle
   rw [hshape l] at hat ⊢
   rw [List.map_append, enc_ins, At_append, length_J] at hat
   have r1 := reach_of_exec (Exec.ins hat.1 hrun)
-  have hj : g.q[pos + is.length]? = some (JI.jcc .e (encL g.C (.s (.uniq l)))) := hat.2.1
+  have hj : g.q[pos + is.length]? = some (JI.jcc cc (encL g.C (.s (.uniq l)))) := hat.2.1
   refine ⟨s', hsame, by rw [hrax]; exact hr, r1.trans ?_⟩
-  by_cases hv : convert (promote t) cv = v
+  by_cases hv : caseSel (promote t) lo hi v = true
   · simp only [hv, if_true]
-    exact jcc_taken ok.nodup hj (ht hv) hfv (by simp [State.cond, hz, hv])
-  · simp only [hv, if_false]
-    have hne : ¬ v = convert (promote t) cv := fun e => hv e.symm
-    have := jcc_fall hj hfv (by simp [State.cond, hz, hne])
+    exact jcc_taken ok.nodup hj (ht hv) hfv (by rw [hz]; exact hv)
+  · simp only [hv, Bool.false_eq_true, if_false]
+    have := jcc_fall hj hfv (by rw [hz]; simpa using hv)
     refine reach_to this ?_
     simp only [List.length_append, List.length_map, List.length_cons, List.length_nil]; omega
 
 /-- **the rungs**: control reaches the label `pickCase` names, else the line after the last rung -/
 theorem rungs_run (g : Cfg) (ok : g.OK) (t : ITy) (v : Int) (tpos : Nat) :
-    ∀ (ents : List (Option Int × Nat)) (pos : Nat) (m : State), At g.q pos ((rungs t ents).map (enc g.C)) →
+    ∀ (ents : List (Option (Int × Int) × Nat)) (pos : Nat) (m : State), At g.q pos ((rungs t ents).map (enc g.C)) →
       (∀ l, pickCase (promote t) v ents = some l → g.q[tpos]? = some (.lbl (encL g.C (.s (.uniq l))))) →
+      (∀ lo hi l, (some (lo, hi), l) ∈ ents → convert (promote t) lo ≤ convert (promote t) hi) →
       Represents t (m.get .rax) v →
       ∃ m', Same m m' ∧ Represents t (m'.get .rax) v ∧
         Reach g.q (pos, m) (if (pickCase (promote t) v ents).isSome then tpos else pos + (rungs t ents).length, m') := by
   intro ents
   induction ents with
-  | nil => intro pos m _ _ hr; exact ⟨m, Same.refl _, hr, by simpa [pickCase, rungs] using Reach.refl _ _⟩
+  | nil => intro pos m _ _ _ hr; exact ⟨m, Same.refl _, hr, by simpa [pickCase, rungs] using Reach.refl _ _⟩
   | cons x r ih =>
     obtain ⟨o, l⟩ := x
     cases o with
     | none =>
-      intro pos m hat hp hr
-      exact ih pos m hat hp hr
+      intro pos m hat hp hne hr
+      exact ih pos m hat hp (fun lo hi l' h' => hne lo hi l' (List.mem_cons_of_mem _ h')) hr
     | some cv =>
-      intro pos m hat hp hr
+      obtain ⟨lo, hi⟩ := cv
+      intro pos m hat hp hne hr
+      have hne' : ∀ lo' hi' l', (some (lo', hi'), l') ∈ r → convert (promote t) lo' ≤ convert (promote t) hi' :=
+        fun lo' hi' l' h' => hne lo' hi' l' (List.mem_cons_of_mem _ h')
       simp only [rungs, List.map_append] at hat
       rw [At_append, List.length_map] at hat
       cases hpr : pickCase (promote t) v r with
       | some l' =>
         have hp' : ∀ l0, pickCase (promote t) v r = some l0 → g.q[tpos]? = some (.lbl (encL g.C (.s (.uniq l0)))) := by
           intro l0 h0; exact hp l0 (by simp [pickCase, h0])
-        obtain ⟨m', sm, hr', r1⟩ := ih pos m hat.1 hp' hr
+        obtain ⟨m', sm, hr', r1⟩ := ih pos m hat.1 hp' hne' hr
         refine ⟨m', sm, hr', ?_⟩
         simpa [pickCase, hpr] using r1
       | none =>
-        obtain ⟨m1, sm1, hr1, r1⟩ := ih pos m hat.1 (by intro l0 h0; rw [hpr] at h0; cases h0) hr
+        obtain ⟨m1, sm1, hr1, r1⟩ := ih pos m hat.1 (by intro l0 h0; rw [hpr] at h0; cases h0) hne' hr
         simp only [hpr, Option.isSome_none, Bool.false_eq_true, if_false] at r1
-        obtain ⟨m2, sm2, hr2, r2⟩ := caseTest_run g ok t cv v l _ tpos m1 hat.2
-          (fun hv => hp l (by simp [pickCase, hpr, hv])) hr1
+        obtain ⟨m2, sm2, hr2, r2⟩ := caseTest_run g ok t lo hi v l _ tpos m1 hat.2
+          (fun hv => hp l (by simp [pickCase, hpr, hv])) (hne lo hi l (List.mem_cons_self ..)) hr1
         refine ⟨m2, sm1.trans sm2, hr2, ?_⟩
-        by_cases hv : convert (promote t) cv = v
+        by_cases hv : caseSel (promote t) lo hi v = true
         · simp only [hv, if_true] at r2
           simpa [pickCase, hpr, hv] using r1.trans r2
-        · simp only [hv, if_false] at r2
+        · simp only [hv, Bool.false_eq_true, if_false] at r2
           have := r1.trans r2
           simp only [pickCase, hpr, hv, if_false, Option.orElse, Option.isSome_none, Bool.false_eq_true, rungs,
             List.length_append]
           exact reach_to this (by omega)
-
 
 /-! ### the selected statement list and the code at the selected label -/
 
@@ -303,11 +412,13 @@ theorem chain_sel (g : Cfg) (P : ITy) (v : Int) (ctx : JCtx) (hsw : ctx.sw = tru
       (selectCase P v b = none → pickCase P v (collect u b) = none) ∧
       (∀ suf, selectDefault b = some suf →
         ∃ l, lastDefault (collect u b) = some l ∧ Entry g ctx l suf (pos + code.length) k1 c1 u1 (depthF b)) ∧
-      (selectDefault b = none → lastDefault (collect u b) = none) := by
+      (selectDefault b = none → lastDefault (collect u b) = none) ∧
+      (∀ lo hi l, (some (lo, hi), l) ∈ collect u b → (lo, hi) ∈ chainRanges b) := by
   induction b with
   | skip =>
     intro k c u code k1 c1 u1 pos _ _ _ _
-    refine ⟨?_, fun _ => rfl, ?_, fun _ => rfl⟩ <;> intro suf h <;> simp [selectCase, selectDefault] at h
+    refine ⟨?_, fun _ => rfl, ?_, fun _ => rfl, fun lo hi l h => by simp [collect] at h⟩ <;> intro suf h <;>
+      simp [selectCase, selectDefault] at h
   | seq it rest _ ihr =>
     intro k c u code k1 c1 u1 pos hch hc hat hnc
     simp only [isChain, Bool.and_eq_true] at hch
@@ -326,7 +437,7 @@ theorem chain_sel (g : Cfg) (P : ITy) (v : Int) (ctx : JCtx) (hsw : ctx.sw = tru
       simp only [noConflictF, Bool.and_eq_true] at hnc
       have hat0 := hat
       rw [List.map_append, At_append, List.length_map] at hat
-      obtain ⟨R1, R2, R3, R4⟩ := ihr ka ca ua cr kr c1r u1r (pos + ci.length) hch.2 hcr hat.2 hnc.2
+      obtain ⟨R1, R2, R3, R4, R5⟩ := ihr ka ca ua cr kr c1r u1r (pos + ci.length) hch.2 hcr hat.2 hnc.2
       have hend : pos + ci.length + cr.length = pos + (ci ++ cr).length := by rw [List.length_append]; omega
       have hdr : depthF rest ≤ depthF (.seq it rest) := by simp only [depthF]; omega
       -- the whole chain as the selected list: its code starts here
@@ -342,14 +453,14 @@ theorem chain_sel (g : Cfg) (P : ITy) (v : Int) (ctx : JCtx) (hsw : ctx.sw = tru
         show collect u it' ++ collect (u + nuniq it') rest = _
         rw [collect_nofree it' u h1, ← h2]; rfl
       cases it with
-      | case_ cv s =>
+      | case_ lo hi s =>
         simp only [isItem] at hch
-        have hcs : collect u (.seq (.case_ cv s) rest) = (some cv, u) :: collect ua rest := by
+        have hcs : collect u (.seq (.case_ lo hi s) rest) = (some (lo, hi), u) :: collect ua rest := by
           simp [collect, collect_nofree s _ hch.1, hua, nuniq]
         rw [hcs]
         simp only [compileF, hsw, if_true, Option.map_eq_some_iff, Prod.mk.injEq] at hci
         obtain ⟨⟨cs, ks, c1s, u1s⟩, _, hci', _, _, _⟩ := hci
-        refine ⟨?_, ?_, ?_, ?_⟩
+        refine ⟨?_, ?_, ?_, ?_, ?_⟩
         · intro suf hs
           simp only [selectCase] at hs
           cases hsr : selectCase P v rest with
@@ -361,7 +472,7 @@ theorem chain_sel (g : Cfg) (P : ITy) (v : Int) (ctx : JCtx) (hsw : ctx.sw = tru
             exact ⟨l, by simp [pickCase, hp], he.mono hend hdr⟩
           | none =>
             simp only [hsr, Option.orElse] at hs
-            by_cases hv : convert P cv = v
+            by_cases hv : caseSel P lo hi v = true
             · simp only [hv, if_true, Option.some.injEq] at hs
               subst hs
               exact ⟨u, by simp [pickCase, R2 hsr, hv], hself u cs hci'.symm⟩
@@ -372,7 +483,7 @@ theorem chain_sel (g : Cfg) (P : ITy) (v : Int) (ctx : JCtx) (hsw : ctx.sw = tru
           | some suf' => simp [hsr, Option.orElse] at hs
           | none =>
             simp only [hsr, Option.orElse] at hs
-            by_cases hv : convert P cv = v
+            by_cases hv : caseSel P lo hi v = true
             · simp [hv] at hs
             · simp [pickCase, R2 hsr, hv]
         · intro suf hs
@@ -382,6 +493,11 @@ theorem chain_sel (g : Cfg) (P : ITy) (v : Int) (ctx : JCtx) (hsw : ctx.sw = tru
         · intro hs
           simp only [selectDefault] at hs
           simp [lastDefault, R4 hs]
+        · intro lo' hi' l' h'
+          simp only [List.mem_cons, Prod.mk.injEq, Option.some.injEq] at h'
+          rcases h' with ⟨⟨rfl, rfl⟩, _⟩ | h'
+          · simp [chainRanges]
+          · simp only [chainRanges, List.mem_cons]; exact Or.inr (R5 _ _ _ h')
       | default_ s =>
         simp only [isItem] at hch
         have hcs : collect u (.seq (.default_ s) rest) = (none, u) :: collect ua rest := by
@@ -389,7 +505,11 @@ theorem chain_sel (g : Cfg) (P : ITy) (v : Int) (ctx : JCtx) (hsw : ctx.sw = tru
         rw [hcs]
         simp only [compileF, hsw, if_true, Option.map_eq_some_iff, Prod.mk.injEq] at hci
         obtain ⟨⟨cs, ks, c1s, u1s⟩, _, hci', _, _, _⟩ := hci
-        refine ⟨?_, ?_, ?_, ?_⟩
+        refine ⟨?_, ?_, ?_, ?_, ?_⟩
+        rotate_left 4
+        · intro lo' hi' l' h'
+          simp only [List.mem_cons, Prod.mk.injEq, reduceCtorEq, false_and, false_or] at h'
+          simp only [chainRanges]; exact R5 _ _ _ h'
         · intro suf hs
           simp only [selectCase] at hs
           obtain ⟨l, hp, he⟩ := R1 suf hs
@@ -417,7 +537,10 @@ theorem chain_sel (g : Cfg) (P : ITy) (v : Int) (ctx : JCtx) (hsw : ctx.sw = tru
       | _ =>
         simp only [isItem] at hch
         rw [hcol _ hch.1 hua]
-        refine ⟨?_, ?_, ?_, ?_⟩
+        refine ⟨?_, ?_, ?_, ?_, ?_⟩
+        rotate_left 4
+        · intro lo' hi' l' h'
+          simp only [chainRanges]; exact R5 _ _ _ h'
         · intro suf hs
           simp only [selectCase] at hs
           obtain ⟨l, hp, he⟩ := R1 suf hs
@@ -438,7 +561,7 @@ theorem chain_sel (g : Cfg) (P : ITy) (v : Int) (ctx : JCtx) (hsw : ctx.sw = tru
 
 /-! ### `case`, `default`, `switch` -/
 
-theorem sim_case (g : Cfg) (n : Nat) (v : Int) (s : FStmt) (ih : SimS g n s) : SimS g (n + 1) (.case_ v s) := by
+theorem sim_case (g : Cfg) (n : Nat) (lo hi : Int) (s : FStmt) (ih : SimS g n s) : SimS g (n + 1) (.case_ lo hi s) := by
   intro σ o σ' hx ctx k0 c0 u0 code k1 c1 u1 hc hK hnc hd pos brkPos contPos hat hctx m hm
   simp only [execF] at hx
   simp only [compileF] at hc
@@ -470,7 +593,7 @@ theorem sim_default (g : Cfg) (n : Nat) (s : FStmt) (ih : SimS g n s) : SimS g (
     cases o <;> simp only [tgt, List.length_cons] <;> omega
   · simp at hc
 
-theorem length_ladder (t : ITy) (ents : List (Option Int × Nat)) (brk : Nat) :
+theorem length_ladder (t : ITy) (ents : List (Option (Int × Int) × Nat)) (brk : Nat) :
     (ladder t ents brk).length = (rungs t ents).length + ((match lastDefault ents with | some _ => 1 | none => 0) + 1) := by
   unfold ladder
   cases lastDefault ents <;> simp
@@ -521,8 +644,12 @@ theorem sim_switch (g : Cfg) (ok : g.OK) (n : Nat) (e : E) (body : FStmt) (ih : 
       · simp only [hok, if_true] at hx
         simp only [switchOK, Bool.and_eq_true] at hok
         obtain ⟨m1, r1, hm1, hrep⟩ := hole g ok hce hv hnc.1 (by omega) (by omega) hat_e hm
-        obtain ⟨S1, S2, S3, S4⟩ := chain_sel g (promote te) v ⟨some u0, ctx.cont, true⟩ rfl body ke c1e (u0 + 1) cb kb c1b u1b _
-          hok.1.1 hcb hat_b hnc.2
+        obtain ⟨S1, S2, S3, S4, S5⟩ := chain_sel g (promote te) v ⟨some u0, ctx.cont, true⟩ rfl body ke c1e (u0 + 1) cb kb c1b u1b _
+          hok.1.1.1 hcb hat_b hnc.2
+        have hne : ∀ lo hi l, (some (lo, hi), l) ∈ collect (u0 + 1) body → convert (promote te) lo ≤ convert (promote te) hi := by
+          intro lo hi l hmem
+          have := List.all_eq_true.1 hok.1.1.2 (lo, hi) (S5 lo hi l hmem)
+          simpa using this
         -- running the selected statement list from its label
         have hrun : ∀ (suf : FStmt) (l : Nat),
             Entry g ⟨some u0, ctx.cont, true⟩ l suf
@@ -573,7 +700,7 @@ theorem sim_switch (g : Cfg) (ok : g.OK) (n : Nat) (e : E) (body : FStmt) (ih : 
           -- where the label is
           obtain ⟨posL, hl, _⟩ := hrun suf l hE hx m1 hm1
           obtain ⟨m2, sm2, _, r2⟩ := rungs_run g ok te v posL (collect (u0 + 1) body) (pos + ce.length) m1 hat_r
-            (fun l0 h0 => by rw [hp] at h0; simp only [Option.some.injEq] at h0; subst h0; exact hl) hrep
+            (fun l0 h0 => by rw [hp] at h0; simp only [Option.some.injEq] at h0; subst h0; exact hl) hne hrep
           simp only [hp, Option.isSome_some, if_true] at r2
           obtain ⟨posL', hl', m', r3, hm', hr'⟩ := hrun suf l hE hx m2 (hm1.same sm2)
           have hpos : posL' = posL := by
@@ -587,7 +714,7 @@ theorem sim_switch (g : Cfg) (ok : g.OK) (n : Nat) (e : E) (body : FStmt) (ih : 
           simp only [hs] at hx
           have hp := S2 hs
           obtain ⟨m2, sm2, _, r2⟩ := rungs_run g ok te v 0 (collect (u0 + 1) body) (pos + ce.length) m1 hat_r
-            (fun l0 h0 => by rw [hp] at h0; cases h0) hrep
+            (fun l0 h0 => by rw [hp] at h0; cases h0) hne hrep
           simp only [hp, Option.isSome_none, Bool.false_eq_true, if_false] at r2
           have hm2 := hm1.same sm2
           cases hds : selectDefault body with
@@ -634,7 +761,7 @@ theorem sim_le (g : Cfg) (ok : g.OK) : ∀ n k, k ≤ n → Sim g k := by
       | for_ init e inc body => exact sim_for g ok n init e inc body (fun k hk => ih k hk body)
       | doWhile body e => exact sim_doWhile g ok n body e (ih n (Nat.le_refl _) body) (ih n (Nat.le_refl _) _)
       | switch_ e body => exact sim_switch g ok n e body (ih n (Nat.le_refl _))
-      | case_ v s => exact sim_case g n v s (ih n (Nat.le_refl _) s)
+      | case_ lo hi s => exact sim_case g n lo hi s (ih n (Nat.le_refl _) s)
       | default_ s => exact sim_default g n s (ih n (Nat.le_refl _) s)
       | brk => exact sim_brk g ok n
       | cont => exact sim_cont g ok n
